@@ -248,9 +248,25 @@ class Target(object):
         return self.run.invoked(self, mid, beh)
 
 
+# measured, not proved: _resolve2 is never entered on a promise that is already NEAR/BROKEN (the model records such an
+# entry as a crash that leaves the promise alone)
+_r2_hits = []
+_orig_resolve2 = pm.Promise._resolve2
+
+
+def _watched_resolve2(self, x):
+    if self._state in (pm.NEAR, pm.BROKEN):
+        _r2_hits.append(self._state)
+    return _orig_resolve2(self, x)
+
+
+pm.Promise._resolve2 = _watched_resolve2
+
+
 class PrRun:
     def __init__(self):
         self.q = fresh_queue()
+        del _r2_hits[:]
         self.P = []                 # promises by index (None: creation failed half-way)
         self.trace = []
         self.viol = []
@@ -323,7 +339,7 @@ class PrRun:
                             self.bad("oracle/send-result", "sendOnly() returned %r" % (r,))
                     self.trace.append([1, p, mid])
                     self.sent.setdefault(p, []).append(mid)
-                except AttributeError as e:
+                except (AttributeError, TypeError) as e:
                     if k == "send":
                         self.P.append(None)
                     self.trace.append([5, p])
@@ -346,7 +362,7 @@ class PrRun:
                     else:
                         if prom._except(told) is not prom:
                             self.bad("oracle/then-result", "_except did not return the promise")
-                except AttributeError as e:
+                except (AttributeError, TypeError) as e:
                     self.trace.append([5, p])
                     self.bad("oracle/attribute-error", "when/_then/_except on promise %d raised %r" % (p, e))
             elif k == "resolve":
@@ -369,7 +385,7 @@ class PrRun:
                     ok = False
                     self.nrefused += 1
                     self.trace.append([4, p])
-                except AttributeError as e:
+                except (AttributeError, TypeError) as e:
                     ok = None
                     self.trace.append([5, p])
                     self.bad("oracle/attribute-error", "resolving promise %d raised %r" % (p, e))
@@ -435,6 +451,9 @@ class PrRun:
                 break
         else:
             self.bad("oracle/no-quiescence", "the queue did not drain in %d turns" % limit)
+        if _r2_hits:
+            self.bad("oracle/resolve2-on-resolved-promise", "_resolve2 was entered %d time(s) on a promise that was already "
+                     "NEAR/BROKEN" % len(_r2_hits))
         for i, p in enumerate(self.P):
             if p is None:
                 continue
